@@ -28,6 +28,7 @@ import Driver.IStore
 import Driver.ChainAccept
 import Driver.PoolAccept
 import Driver.TarFS
+import Driver.ProtoSession
 
 namespace Driver
 open Desync
@@ -646,6 +647,11 @@ def runLine (l : String) : String :=
     | "mode.mkdev" => cmdMode "mkdev" a
     | "mode.rdev" => cmdMode "rdev" a
     | "proto.read" => cmdProtoRead a
+    | "proto.serve" => Proto.cmdServe false a
+    | "proto.serve.alloc" => Proto.cmdServe true a
+    | "proto.client" => Proto.cmdClient false a
+    | "proto.client.alloc" => Proto.cmdClient true a
+    | "proto.session" => Proto.cmdSession a
     | "chunk.buffered" => cmdChunkBuffered a
     | "chunk.disc" => cmdChunkDisc a
     | "sip" => cmdSip a
